@@ -44,6 +44,8 @@ def blocks(tier, seed):
         core = core[::2]
     for i in core:
         out.append({"kind": "pairs", "i": i, "with": core})
+    for i in range(len(aclgen.merge_pairs())):
+        out.append({"kind": "mpair", "i": i})
     return out
 
 
@@ -195,6 +197,41 @@ def merge_shape(ra, rb_):
     return "same row is %global in one ACL and a block with children in the other" if clash(ra, rb_) else "other"
 
 
+def run_mpair(block, ctx):
+    """two generators' ACLs merged as production does; inside the unambiguous domain: result == reference filter"""
+    from annet.annlib import patching
+    name, fa, fb = aclgen.merge_pairs()[block["i"]]
+    ra, rb_ = fa(), fb()
+    ta, tb = refacl.text(ra), refacl.text(rb_)
+    combined = "".join("%s  %%generator_names=%s\n" % (ln.rstrip(), g)
+                       for g, t in (("ga", ta), ("gb", tb)) for ln in t.split("\n") if ln.strip())
+    cab = compile_text(combined)
+    lvl = refacl.top(refacl.merge([("ga", ra), ("gb", rb_)]))
+    rows = []
+    for r in aclgen.row_alphabet(ra) + aclgen.row_alphabet(rb_):
+        if r not in rows and r != "x y":
+            rows.append(r)
+    rows = rows[:6]
+    n = 4 if ctx.tier == "quick" else 5
+    for forest in mcenum.forests(rows, n, 3):
+        if not forest:
+            continue
+        if ctx.expired():
+            return
+        got = to_list(patching.apply_acl(env.to_odict(forest), cab))
+        exp = refacl.ref_filter(lvl, forest, PREFIX)
+        ctx.evals += 1
+        ctx.states += 1
+        if got != exp:
+            ctx.violation({"kind": "merged-filter-differs", "pair": name},
+                          {"kind": "mpair", "i": block["i"], "forest": forest}, "merged ACL %r: apply_acl=%r reference=%r" % (combined, got, exp))
+        kept, total = mcenum.size(got), mcenum.size(forest)
+        if 0 < kept < total:
+            ctx.nontrivial += 1
+        ctx.outcomes["mpair:%s" % ("kept-none" if kept == 0 else ("kept-all" if kept == total else "kept-some"))] += 1
+    ctx.sample({"merged_acl": combined, "rows": rows})
+
+
 def subtree_unordered(small, big):
     bigd = {r: ch for r, ch in big}
     for r, ch in small:
@@ -206,6 +243,8 @@ def subtree_unordered(small, big):
 def run_block(block, ctx):
     if block["kind"] == "single":
         run_single(block, ctx)
+    elif block["kind"] == "mpair":
+        run_mpair(block, ctx)
     else:
         run_pairs(block, ctx)
 
@@ -215,6 +254,17 @@ def replay(case):
 
     def rep(sig, c, d=""):
         out.append((sig, d))
+    if case["kind"] == "mpair":
+        from annet.annlib import patching
+        name, fa, fb = aclgen.merge_pairs()[case["i"]]
+        ra, rb_ = fa(), fb()
+        combined = "".join("%s  %%generator_names=%s\n" % (ln.rstrip(), g)
+                           for g, t in (("ga", refacl.text(ra)), ("gb", refacl.text(rb_))) for ln in t.split("\n") if ln.strip())
+        got = to_list(patching.apply_acl(env.to_odict(case["forest"]), compile_text(combined)))
+        exp = refacl.ref_filter(refacl.top(refacl.merge([("ga", ra), ("gb", rb_)])), case["forest"], PREFIX)
+        if got != exp:
+            rep({"kind": "merged-filter-differs", "pair": name}, case, "apply_acl=%r reference=%r" % (got, exp))
+        return out
     if case["kind"] == "single":
         rules = [refacl.ARule.from_json(d) for d in case["acl"]]
         text = refacl.text(rules)
